@@ -12,7 +12,7 @@ ASSUMPTIONS = ["column sums compared exactly as Python numbers for |values| < 2*
                "values only: the result dtype of sum(axis=0) is not part of the statement"]
 REQUIRED_FEATURES = ["empty_row", "rows_of_different_lengths", "bool_count", "get_column_values", "same_object_sequence"]
 BOUNDS = {"quick": "LV(4,3) with a non-empty row x {bool,int8,int64,uint8,uint64,float32,float64} x 2 patterns x "
-                   "{sum(axis=0) method/function, mean(axis=0) method/function, col_counts, get_column_values(j) for every j}",
+                   "{sum(axis=0) method/function, mean(axis=0) method/function, col_counts, get_column_values(j) for every j}; column numbers as numpy scalars of 4 types; same-object sequences (contiguous and pending view) incl. means",
           "thorough": "LV(5,4), 3 patterns, plus int16/int32"}
 DTS = ["bool", "int8", "int64", "uint8", "uint64", "float32", "float64"]
 
